@@ -174,6 +174,9 @@ def build(seed, tier):
         spec['calibrate'] = calibrate
     if (cls == 'import-loop' and rc.random() < 0.5) or rc.random() < 0.08:
         spec['sandbox_threaded'] = True
+        for o in spec['ops'][:k]:
+            if o.get('op') in sbx.EXEC_OPS:
+                o['threaded'] = False         # the defining run before a call/evaluate is not the execution under test
         for o in spec['ops'][k + 1:]:
             o.pop('threaded', None)
             if T < 1.5 and o.get('op') in sbx.EXEC_OPS:
@@ -363,6 +366,18 @@ def judge(spec, res, k=None):
         own = {t[0]: t[2] for t in res['sched'].get('thread_states') or []}
         landed_in = {x[0]: x[6] for x in res['sched'].get('landings') or [] if len(x) > 6}
         survivors = sorted(t for t in d0['alive'] if t in landed_in and own.get(t, 0) - landed_in[t] > 300)
+        # ... and a thread that the abandoned execution itself had started (threaded import of a second student file)
+        # is given up on as well: nobody is left to wait for it
+        sent_to = {int(t) for t in (res['sched'].get('thread_sent_site') or {})}
+        orphans = sorted(t for t in d0['alive'] if t != 0 and t not in sent_to and own.get(t, 0) > 300)
+        # (only once every abandoned thread has ended or had ample opportunity to: a starved waiter has not yet had
+        # the chance to pass the termination on)
+        waiters_had_their_chance = all(t not in d0['alive'] or (t in landed_in and own.get(t, 0) - landed_in[t] > 300)
+                                       for t in sent_to)
+        if orphans and sent_to and waiters_had_their_chance:
+            viol('T4-thread-started-by-the-abandoned-execution-never-terminated',
+                 'thread(s) %s (started by the timed-out execution, e.g. for a nested import) were never sent the asynchronous '
+                 'exception and still run after the drain' % (orphans,))
         if survivors:
             viol('T4-abandoned-thread-survived-its-termination',
                  'thread(s) %s still run after the asynchronous exception landed in them (class %s does not catch BaseException)' % (
